@@ -374,8 +374,47 @@ def r07g(run):
               message="ParserField.immutable ignores the declared flag")
 
 
+def r07h(run, S):
+    """fields are looked up by name through the parser's alias- and case-aware lookup, never by raw key"""
+    scope = [f for f in run.repo.all_functions() if f.module.name in ("utype.schema", "utype.parser.cls", "utype.parser.func")]
+    lookups = raw = 0
+    for f in scope:
+        fa = analysis(f)
+        for n in fa.cfg.nodes:
+            if n.ast is None or n.kind not in ("stmt", "test", "iter", "with"):
+                continue
+            for e in fa.node_exprs(n):
+                for sub in walk_shallow(e):
+                    if isinstance(sub, ast.Call) and call_attr(sub) == "get_field":
+                        lookups += 1
+                    recv = None
+                    if isinstance(sub, ast.Call) and isinstance(sub.func, ast.Attribute) and sub.func.attr == "get":
+                        recv = sub.func.value
+                    elif isinstance(sub, ast.Subscript) and isinstance(sub.ctx, ast.Load):
+                        recv = sub.value
+                    if recv is None:
+                        continue
+                    is_fields = isinstance(recv, ast.Attribute) and recv.attr == "fields"
+                    if isinstance(recv, ast.Name) and recv.id in fa.rd.locals:
+                        os_ = prov(fa).of_name(n, recv.id)
+                        is_fields = bool(os_) and all(o.kind == "attr" and o.text.endswith(".fields") for o in os_)
+                    if not is_fields:
+                        continue
+                    raw += 1
+                    run.check("R07h", f, f"`{unparse(sub)[:50]}` goes through get_field", False,
+                              construct="raw keyed access to the fields table",
+                              message=f"{f.qualname}: `{unparse(sub)[:70]}` indexes the parser's `fields` table by a raw "
+                                      f"name instead of calling get_field()",
+                              necessity="under case_insensitive options the table is keyed by the lower-cased name while "
+                                        "dependants / aliases keep the declared spelling: the lookup misses and a dependent "
+                                        "property is not recomputed (stale computed key)", node=sub)
+    run.ob("R07h", S.ref, "no raw keyed access to a parser's fields table in the mutator / accessor code", raw == 0,
+           detail=f"{lookups} get_field lookups")
+    run.floor("R07h", "get_field lookups in the mutator / accessor code", lookups, 6)
+
+
 def check(run):
-    run.rules_run += ["R07a", "R07b", "R07c", "R07d", "R07e", "R07f", "R07g"]
+    run.rules_run += ["R07a", "R07b", "R07c", "R07d", "R07e", "R07f", "R07g", "R07h"]
     run.explain("C07: (R07a) the dict subclass overrides every mutating method of dict; (R07b) every write to raw "
                 "storage (super().__setitem__, dict.update, __dict__[k]=v) stores the result of a parse call; (R07c) "
                 "every raw removal is dominated by the schema-immutable, field-immutable and is_required checks; "
@@ -392,3 +431,4 @@ def check(run):
     r07e(run, S)
     r07f(run, S)
     r07g(run)
+    r07h(run, S)
